@@ -21,6 +21,12 @@
 #ifndef NP
 #define NP 3
 #endif
+#ifndef FBPOS
+#define FBPOS 1
+#endif
+#ifndef MAXBL
+#define MAXBL 3
+#endif
 #include "lib/sqfs/src/block_processor/backend.c"
 
 /* ---- stubs ---- */
@@ -50,59 +56,77 @@ static int wr_write(sqfs_block_writer_t *wr, void *user, sqfs_u32 size, sqfs_u32
 static sqfs_block_writer_t WR;
 static sqfs_block_processor_t PROC;
 
+#ifndef MODE
+#define MODE 1
+#endif
+#if MODE == 1
+/*
+ * (A) store_io_block keeps the I/O queue sorted by sequence number whatever
+ * order blocks arrive in, so the file is written in sequence-number order.
+ */
 void harness(void)
 {
-	sqfs_u32 S = ND_U32();
-	unsigned fbpos = ND_U32(), i, next_seq;
-	int ret;
+	sqfs_block_t *it;
+	unsigned i;
+	for (i = 0; i < NP; ++i) {
+		BLK[i].b.io_seq_num = ND_U32();
+		for (unsigned j = 0; j < i; ++j)
+			VP_ASSUME(BLK[j].b.io_seq_num != BLK[i].b.io_seq_num);	/* numbers are handed out once */
+		store_io_block(&PROC, &BLK[i].b);
+	}
+	for (it = PROC.io_queue, i = 0; i < NP + 1 && it != NULL; ++i, it = it->next)
+		if (it->next != NULL)
+			VP_ASSERT(it->io_seq_num < it->next->io_seq_num, "C02: the I/O queue is sorted by sequence number for every arrival order");
+	VP_ASSERT(i == NP && it == NULL, "every block is queued exactly once");
+	VP_REACH("done");
+}
+#else
+/*
+ * (B) who gets a sequence number when: a block that comes back from the pool
+ * is numbered at that moment - EXCEPT a fragment block, which keeps the
+ * number it was given when it overflowed (earlier, on the submitting thread).
+ * One block in the pool, one dequeue_block() call, everything else symbolic.
+ */
+void harness(void)
+{
+	sqfs_u32 S = ND_U32(), D = ND_U32(), old = ND_U32(), flags = 0;
+	int is_fragblk = ND_BOOL(), manual = ND_BOOL(), ret;
 
-	VP_ASSUME(S < 0xFFFFFF00u);
-	VP_ASSUME(fbpos <= NP);		/* == NP: no fragment block in flight */
+	VP_ASSUME(S < 0xFFFFFF00u && D <= S);
 	POOL.dequeue = pool_dequeue;
 	POOL.get_status = pool_status;
 	WR.write_data_block = wr_write;
 	PROC.pool = &POOL;
 	PROC.wr = &WR;
-	PROC.io_deq_seq_num = S;
-	PROC.io_seq_num = (fbpos < NP) ? S + 1 : S;	/* the fragment block holds number S */
-	PROC.backlog = NP;
-	PROC.max_backlog = ND_SZ();
-	for (i = 0; i < NP; ++i) {
-		BLK[i].b.size = 1;
-		BLK[i].b.user = &BLK[i];
-		BLK[i].b.flags = ND_BOOL() ? SQFS_BLK_DONT_COMPRESS : 0;
-		if (i == fbpos) {
-			BLK[i].b.flags |= SQFS_BLK_FRAGMENT_BLOCK;
-			BLK[i].b.io_seq_num = S;
-		} else {
-			BLK[i].b.io_seq_num = ND_U32();	/* whatever was left in a recycled block */
-		}
-	}
+	PROC.io_seq_num = S;
+	PROC.io_deq_seq_num = D;
+	PROC.backlog = 1;
+	PROC.max_backlog = 3;
+	pool_head = NP - 1;			/* exactly one block left in the pool */
+	if (is_fragblk) flags |= SQFS_BLK_FRAGMENT_BLOCK;
+	if (manual) flags |= BLK_FLAG_MANUAL_SUBMISSION;
+	BLK[NP - 1].b.flags = flags;
+	BLK[NP - 1].b.size = 1;
+	BLK[NP - 1].b.io_seq_num = old;
+	BLK[NP - 1].b.user = &BLK[NP - 1];
+	/* consistent pre-state: the block in the pool carries the oldest outstanding
+	   number (anything older would itself still be in the pool) */
+	if (is_fragblk && !manual)
+		VP_ASSUME(old == D && old < S);	/* it was numbered when it overflowed */
+	else
+		VP_ASSUME(D == S);
 
-	for (i = 0; i < NP + 1; ++i) {
-		if (PROC.backlog == 0)
-			break;
-		ret = dequeue_block(&PROC);
-		VP_ASSERT(ret == 0, "no error injected");
+	ret = dequeue_block(&PROC);
+	VP_ASSERT(ret == 0, "no error injected");
+	if (is_fragblk && !manual) {
+		VP_ASSERT(BLK[NP - 1].b.io_seq_num == old && PROC.io_seq_num == S,
+			  "C02: a fragment block keeps the sequence number of the moment it overflowed; finishing late does not renumber it");
+		VP_REACH("fragment_block_keeps_number");
+	} else {
+		VP_ASSERT(BLK[NP - 1].b.io_seq_num == S && PROC.io_seq_num == S + 1, "C02: every other block is numbered in dequeue (= submission) order");
+		VP_REACH("numbered_at_dequeue");
 	}
-	VP_ASSERT(PROC.backlog == 0 && wlog_n == NP && PROC.io_queue == NULL, "every block is written exactly once");
-	if (fbpos < NP) {
-		VP_ASSERT(wlog_user[0] == &BLK[fbpos], "C02: the fragment block is written at the position at which it overflowed (first), not when it finished");
-		VP_REACH("fragment_block_overtaken");
-	}
-	/* the data blocks keep their pool (= submission) order */
-	next_seq = 0;
-	for (i = 0; i < NP; ++i) {
-		unsigned k;
-		for (k = 0; k < NP; ++k)
-			if (wlog_user[i] == &BLK[k])
-				break;
-		VP_ASSERT(k < NP, "written block is one of the submitted blocks");
-		if (k != fbpos) {
-			VP_ASSERT(k >= next_seq, "C02: data blocks reach the file in submission order whatever the backlog / call pattern");
-			next_seq = k;
-		}
-	}
-	VP_ASSERT(PROC.io_deq_seq_num == PROC.io_seq_num && PROC.io_seq_num == S + NP, "sequence numbers are consecutive and all consumed");
-	VP_REACH("done");
+	/* it is written now exactly if it is the oldest outstanding number */
+	VP_ASSERT(wlog_n == 1 && wlog_user[0] == &BLK[NP - 1] && PROC.io_deq_seq_num == D + 1 && PROC.backlog == 0, "the oldest outstanding block is written at once");
 }
+#endif
